@@ -99,7 +99,9 @@ def snp_events(run, tier, seed, tag, ks=None, n=None):
             ref = None
             if refmode:
                 ref = os.path.join(sb.dir, "ref%d.fa" % ci)
-                vlib.write_fasta(ref, [sc["ancestor"]], names=["anc"])
+                # every second reference is wrapped (lines of 60, 70 or 37 bases), every fourth of those with DOS line ends
+                vlib.write_fasta(ref, [sc["ancestor"]], names=["anc"], wrap=[60, 70, 37][ci % 3] if ci % 4 == 0 else None,
+                                 crlf=(ci % 8 == 0))
             threads = rng.choice([1, 2, 3, 4, 8])
             missing = rng.choice([None, 0.0, 0.1, 0.4])
             r = run_lo(sb, [[x["seq"] for x in recs] for recs in sc["samples"]], names, k, "s%d" % ci, threads=threads,
